@@ -327,10 +327,11 @@ Definition today : source :=
      src_entries := entry_points;
      src_entry_unread := entry_unread;
      src_census := [resolve_path_wrappers; method_wrappers; shared_mutable_state; foreign_patches; foreign_subclasses;
-                    decorator_origins; reachable_foreign_caches; per_object_state; unconstrained_constructions] |}.
+                    decorator_origins; reachable_foreign_caches; per_object_state; unconstrained_constructions; unexpected_bases] |}.
 (** Named parts of [source_ok today] (each an instance obligation of the check; their conjunction is the hypothesis). *)
 Definition no_foreign_patch_subclass_decorator_or_cache : bool :=
-  nilb foreign_patches && nilb foreign_subclasses && nilb decorator_origins && nilb reachable_foreign_caches.
+  nilb foreign_patches && nilb foreign_subclasses && nilb decorator_origins && nilb reachable_foreign_caches
+  && nilb unexpected_bases.
 Definition objects_keep_no_table_or_outside_state : bool := nilb per_object_state && constructor_signature_ok.
 Definition package_factories_construct_constrained_systems : bool := nilb unconstrained_constructions.
 Definition entry_points_land_on_access_methods : bool := routes_ok today.
